@@ -996,14 +996,56 @@ fn run_hash_and_sign_event(input: &[u8]) -> Outcome {
     };
     let Some(rules) = rules_of(&p.room_version) else { return rej("unknown room version") };
     let mut ev = p.event;
+    let before = ev.clone();
     match hash_and_sign_event("example.org", key_pair(), &mut ev, &rules.redaction) {
         Ok(()) => {
             let mut d = Dig::new();
             d.dbg(&ev);
             d.done()
         }
-        Err(e) => rej(e),
+        Err(e) => {
+            unchanged_after_rejection("hash_and_sign_event", &before, &ev);
+            rej(e)
+        }
     }
+}
+
+/// "a rejected input has no effect on later calls": the object handed in by `&mut` is the caller's state
+/// for its later calls; a call that reports an error must leave it as it was. Reported as a panic of the
+/// harness (the supervisor has no other channel for a per-input finding).
+fn unchanged_after_rejection(api: &str, before: &CanonicalJsonObject, after: &CanonicalJsonObject) {
+    if before != after {
+        panic!("{api} returned an error but changed the object it was given: {before:?} -> {after:?}");
+    }
+}
+
+/// `sign_json` on an object a remote party supplied (a server co-signing what it received)
+fn run_sign_json_untrusted(input: &[u8]) -> Outcome {
+    let mut obj: CanonicalJsonObject = match serde_json::from_slice(input) {
+        Ok(o) => o,
+        Err(e) => return rej(e),
+    };
+    let before = obj.clone();
+    match sign_json("example.org", key_pair(), &mut obj) {
+        Ok(()) => {
+            let mut d = Dig::new();
+            d.dbg(&obj);
+            d.done()
+        }
+        Err(e) => {
+            unchanged_after_rejection("sign_json", &before, &obj);
+            rej(e)
+        }
+    }
+}
+
+fn sign_json_untrusted_seeds() -> Vec<Value> {
+    vec![
+        json!({"k": "v", "n": [1, {"z": null}], "unsigned": {"age": 1}}),
+        json!({"k": "v", "signatures": {"example.org": {"ed25519:0": "c3RhbGU"}, "other.org": {"ed25519:1": "b3RoZXI"}}, "unsigned": {"age": 1}}),
+        json!({"content": {"signatures": {"x": 1}}, "signatures": {"other.org": {"ed25519:1": "b3RoZXI"}}}),
+        json!({}),
+    ]
 }
 
 fn run_event_hashes(input: &[u8]) -> Outcome {
@@ -1175,6 +1217,14 @@ fn html_seeds() -> Vec<Vec<u8>> {
         "<details><summary>s</summary>d</details><sup>1</sup><sub>2</sub><del>d</del><s>s</s><u>u</u><i>i</i><br/>&lt;&amp;&gt;&quot;&#x1F600;&nbsp;",
         "<svg><a xlink:href=\"https://e.x/\"><title>t</title></a></svg><math><mi>x</mi></math><strike>old</strike>",
         "plain text with é and \u{1F600}",
+        // markup that makes the HTML tree builder call the less common TreeSink operations of ruma-html:
+        // adoption agency (formatting element closed across a block: reparent_children), foster parenting
+        // (text / elements inside a table: append_before_sibling), merged html / body attributes
+        // (add_attrs_if_missing), template contents, remove_from_parent
+        "<b><p>text</b> after</p><em><div>one <code>two</code></em> three</div>",
+        "<a href=\"https://e.x/1\">1<table><tr><td><a href=\"https://e.x/2\">2</a></td></tr>stray text<b>bold</b></table>tail",
+        "<!DOCTYPE html><html lang=\"en\"><head><title>t</title></head><body class=\"a\"><body id=\"b\"><html data-x=\"1\">x<template><p>in</p></template><select><option>o<p>q</select><form><form></form>",
+        "<b><i>x</b>y</i><nobr>a<nobr>b</nobr><p><table><p>cell<tr><td><li><dd><h1><h2>x",
     ])
 }
 
@@ -1429,6 +1479,7 @@ pub fn entries() -> Vec<Entry> {
         entry("verify_event", Kind::Json, bs(verify_event_seeds()), JSON_EXTRA, vec![], run_verify_event),
         entry("hash_and_sign_event", Kind::Json, bs(event_in_seeds()), JSON_EXTRA, vec![], run_hash_and_sign_event),
         entry("event_hashes", Kind::Json, bs(event_in_seeds()), JSON_EXTRA, vec![], run_event_hashes),
+        entry("sign_json_untrusted", Kind::Json, bs(sign_json_untrusted_seeds()), JSON_EXTRA, vec![], run_sign_json_untrusted),
         entry(
             "ed25519_key_pair_from_der",
             Kind::Bytes,
